@@ -1,15 +1,23 @@
 #!/bin/bash
-# type-checks every Lean lemma file; writes STATUS.json (file -> ok/failed, no sorry/axiom scan)
+# type-checks every Lean lemma file (in parallel); writes STATUS.json (file -> ok/failed/rejected).
+# A file is rejected without being checked when it mentions sorry/admit/native_decide or declares an axiom / unsafe.
 cd "$(dirname "$0")"
+check_one() {
+  f="$1"
+  if grep -nE '\b(sorry|admit|native_decide)\b|^\s*axiom\b|^\s*unsafe\b' "$f" >/dev/null; then st="rejected: contains sorry/admit/axiom/native_decide/unsafe";
+  elif timeout 900 lean "$f" > "$f.log" 2>&1 && ! grep -q "error" "$f.log"; then st="ok"; else st="failed"; fi
+  rm -f "$f.log"
+  printf '%s' "$st" > "$f.status"
+}
+export -f check_one
+ls *.lean | xargs -P 8 -I{} bash -c 'check_one {}'
 echo "{" > STATUS.json.tmp
 first=1
 for f in *.lean; do
-  if grep -nE '\b(sorry|admit|native_decide)\b|^\s*axiom\b|^\s*unsafe\b' "$f" >/dev/null; then st="rejected: contains sorry/admit/axiom/native_decide/unsafe";
-  elif timeout 900 lean "$f" > "$f.log" 2>&1 && ! grep -q "error" "$f.log"; then st="ok"; else st="failed"; fi
   [ $first = 1 ] || echo "," >> STATUS.json.tmp
   first=0
-  printf ' "%s": "%s"' "$f" "$st" >> STATUS.json.tmp
-  rm -f "$f.log"
+  printf ' "%s": "%s"' "$f" "$(cat "$f.status")" >> STATUS.json.tmp
+  rm -f "$f.status"
 done
 echo "" >> STATUS.json.tmp; echo "}" >> STATUS.json.tmp
 mv STATUS.json.tmp STATUS.json
